@@ -33,6 +33,10 @@ pub broadcast proof fn axiom_vecu8_ord()
     ensures #[trigger] key_obeys_cmp_spec::<Vec<u8>>(),
 {}
 #[verifier::external_body]
+pub broadcast proof fn axiom_vecu8_ord2()
+    ensures #[trigger] vstd::laws_cmp::obeys_cmp::<Vec<u8>>(),
+{}
+#[verifier::external_body]
 pub broadcast proof fn axiom_vecu8_borrow()
     ensures #[trigger] borrowed_key_ordering_matches::<Vec<u8>, [u8]>(),
 {}
@@ -73,20 +77,45 @@ pub broadcast proof fn axiom_str_ref(s: &str)
 pub broadcast proof fn axiom_array_ref<const N: usize>(a: &[u8; N])
     ensures #[trigger] arr_ref::<u8, N>(a)@ == a@,
 {}
+#[verifier::external_body]
+pub broadcast proof fn axiom_vec_of(s: Seq<u8>)
+    ensures (#[trigger] vec_of(s))@ == s,
+{}
+/// `From<&str> for Vec<u8>` and `From<&[u8]> for Vec<u8>` (reached through `.into()`) copy the bytes
+#[verifier::external_body]
+pub broadcast proof fn axiom_vec_from_str(s: &str)
+    ensures
+        #[trigger] <Vec<u8> as vstd::std_specs::convert::FromSpec<&str>>::from_spec(s)@ == utf8(s@),
+{}
+#[verifier::external_body]
+pub broadcast proof fn axiom_vec_from_str_obeys()
+    ensures
+        #[trigger] <Vec<u8> as vstd::std_specs::convert::FromSpec<&str>>::obeys_from_spec(),
+{}
+#[verifier::external_body]
+pub broadcast proof fn axiom_vec_from_slice_obeys()
+    ensures
+        #[trigger] <Vec<u8> as vstd::std_specs::convert::FromSpec<&[u8]>>::obeys_from_spec(),
+{}
+#[verifier::external_body]
+pub broadcast proof fn axiom_vec_from_slice(s: &[u8])
+    ensures
+        #[trigger] <Vec<u8> as vstd::std_specs::convert::FromSpec<&[u8]>>::from_spec(s)@ == s@,
+{}
 /// a `Bytes` exists for every byte sequence
 #[verifier::external_body]
 pub broadcast proof fn axiom_bytes_of(s: Seq<u8>)
-    ensures #[trigger] bview(&bytes_of(s)) == s,
+    ensures bview(&#[trigger] bytes_of(s)) == s,
 {}
 #[verifier::external_body]
 pub broadcast proof fn axiom_ip4_of(s: Seq<u8>)
     requires s.len() == 4,
-    ensures #[trigger] ip4_octets(ip4_of(s)) == s,
+    ensures ip4_octets(#[trigger] ip4_of(s)) == s,
 {}
 #[verifier::external_body]
 pub broadcast proof fn axiom_ip6_of(s: Seq<u8>)
     requires s.len() == 16,
-    ensures #[trigger] ip6_octets(ip6_of(s)) == s,
+    ensures ip6_octets(#[trigger] ip6_of(s)) == s,
 {}
 #[verifier::external_body]
 pub broadcast proof fn axiom_ip4_len(a: std::net::Ipv4Addr)
@@ -99,8 +128,8 @@ pub broadcast proof fn axiom_ip6_len(a: std::net::Ipv6Addr)
 
 pub broadcast group group_trusted {
     axiom_slice_eq, axiom_slice_obeys, axiom_slice_ord, axiom_slice_pord_obeys,
-    axiom_vecu8_ord, axiom_vecu8_borrow, axiom_vecu8_ext,
+    axiom_vecu8_ord, axiom_vecu8_ord2, axiom_vecu8_borrow, axiom_vecu8_ext,
     axiom_contains_borrowed, axiom_maps_borrowed, axiom_removed_borrowed, axiom_vecu8_cmp,
-    axiom_vec_ref, axiom_str_ref, axiom_array_ref, axiom_bytes_of,
+    axiom_vec_ref, axiom_str_ref, axiom_vec_of, axiom_vec_from_str, axiom_vec_from_slice, axiom_vec_from_str_obeys, axiom_vec_from_slice_obeys, axiom_array_ref, axiom_bytes_of,
     axiom_ip4_of, axiom_ip6_of, axiom_ip4_len, axiom_ip6_len,
 }
